@@ -224,6 +224,7 @@ def lib_procs():
                     iff(bi('=', var('n'), num(0)), ret(num(0)),
                         ret(bi('+', idx('v', bi('-', var('n'), num(1))), call('sum', [var('v'), bi('-', var('n'), num(1))]))))),
         'put3': proc(False, [('val', 'p'), ('val', 'q'), ('val', 'r')], [], seq([putv(var('p')), putv(var('q')), putv(var('r'))])),
+        'tkb': proc(True, [('val', 'p')], [], seq([ass(var('c'), bi('+', var('c'), num(1))), ret(var('p'))])),
     }
 
 
@@ -279,7 +280,7 @@ CONST_LEAVES = {'lval', 'imm', 'imm0', 'pool', 'neg', 'negpool', 'hex', 'char', 
 def bool_leaves():
     return [('true', lambda: num(1, 'bool')), ('false', lambda: num(0, 'bool')), ('lt', lambda: bi('<', var('y'), num(3))),
             ('eqc', lambda: bi('=', call('id', [num(1)]), num(1))), ('gv', lambda: var('k')), ('nz', lambda: un('~', bi('=', var('x'), num(0)))),
-            ('cnt1', lambda: bi('=', call('cnt', []), num(1)))]
+            ('cnt1', lambda: bi('=', call('cnt', []), num(1))), ('cntb', lambda: call('tkb', [num(1, 'bool')])), ('cntf', lambda: call('tkb', [num(0, 'bool')]))]
 
 
 ARITH = ['+', '-']
@@ -308,6 +309,7 @@ def contexts():
         'binl': lambda e: [exit_(bi('+', e, var('y')))],
         'binr': lambda e: [exit_(bi('-', var('y'), e))],
         'binrr': lambda e: [exit_(bi('+', idx('a', num(0)), bi('-', var('y'), e)))],
+        'cntobs': lambda e: [ass(var('l'), e), putc(var('c')), exit_(var('l'))],
     }
 
 
@@ -336,6 +338,8 @@ def bool_contexts():
         'cplus': lambda e: [exit_(bi('+', e, num(0)))],
         'cminus': lambda e: [exit_(bi('-', num(1), e))],
         'ceq': lambda e: [exit_(bi('=', e, num(1, 'bool')))],
+        'cntobs': lambda e: [ass(var('l'), e), putc(var('c')), exit_(var('l'))],
+        'cntobsif': lambda e: [iff(e, putc(num(89)), putc(num(78))), exit_(var('c'))],
     }
 
 
@@ -703,6 +707,8 @@ def build_tree(t, mask, rng, leafno, setup, gvals, lvals):
     """t: ('leaf', v) | ('bin', op, l, r) | ('un', op, e); mask: set of leaf numbers supplied at run time"""
     if t[0] == 'leaf':
         i = leafno[0]; leafno[0] += 1
+        if len(t) > 2 and t[2] == 'tk':
+            return call('tk', [num(t[1])])          # a counting call: the same in EVERY placement
         if i in mask:
             how = rng.random()
             if how < 0.6:
@@ -740,8 +746,10 @@ def fold_variant(t, mask, rng):
     clash = len({(s[1]) for s in setup if s[0] == 'arr'}) != len([s for s in setup if s[0] == 'arr'])
     if clash:
         return None
-    procs = {'id': lib_procs()['id'], 'main': proc(False, [], [], seq(ss + [exit_(e)]), lvals)}
-    return program(gv, {'a': 4}, procs, gvals, None, ['id', 'main'])
+    tk = proc(True, [('val', 'p')], [], seq([ass(var('cn'), bi('+', var('cn'), num(1))), ret(var('p'))]))
+    procs = {'id': lib_procs()['id'], 'tk': tk,
+             'main': proc(False, [], ['res'], seq([ass(var('cn'), num(0))] + ss + [ass(var('res'), e), putc(var('cn')), exit_(var('res'))]), lvals)}
+    return program(gv + ['cn'], {'a': 4}, procs, gvals, None, ['id', 'tk', 'main'])
 
 
 def fold_trees(rng, tier):
@@ -757,6 +765,13 @@ def fold_trees(rng, tier):
         for a in bools:
             for b in bools:
                 out.append(('d1:%s:%d:%d' % (op, a, b), ('bin', op, ('leaf', a), ('leaf', b))))
+                out.append(('d1tkl:%s:%d:%d' % (op, a, b), ('bin', op, ('leaf', a, 'tk'), ('leaf', b))))
+                out.append(('d1tkr:%s:%d:%d' % (op, a, b), ('bin', op, ('leaf', a), ('leaf', b, 'tk'))))
+    for op in ARITH + REL:
+        for a in (0, 1, -1, 65536, INT_MIN, INT_MAX):
+            for b in (0, 1, -1, 65536, INT_MIN, INT_MAX):
+                out.append(('d1tkl:%s:%d:%d' % (op, a, b), ('bin', op, ('leaf', a, 'tk'), ('leaf', b))))
+                out.append(('d1tkr:%s:%d:%d' % (op, a, b), ('bin', op, ('leaf', a), ('leaf', b, 'tk'))))
     # a relational result used inside a larger expression (so that a folded comparison survives as a value)
     wrappers = [lambda t: ('bin', '+', t, ('leaf', 0)), lambda t: ('un', '~', t), lambda t: ('bin', 'and', t, ('leaf', 1)),
                 lambda t: ('bin', 'or', ('leaf', 0), t), lambda t: ('bin', '-', ('leaf', 1), t), lambda t: ('bin', '=', t, ('leaf', 1))]
@@ -773,7 +788,8 @@ def fold_trees(rng, tier):
 
     def itree(d):
         if d == 0 or rng.random() < 0.15:
-            return ('leaf', rng.choice(BVALS) if rng.random() < 0.8 else rng.randint(-70000, 70000))
+            v = rng.choice(BVALS) if rng.random() < 0.8 else rng.randint(-70000, 70000)
+            return ('leaf', v, 'tk') if rng.random() < 0.2 else ('leaf', v)
         r = rng.random()
         if r < 0.75:
             return ('bin', rng.choice(ARITH), itree(d - 1), itree(d - 1))
@@ -783,7 +799,7 @@ def fold_trees(rng, tier):
 
     def btree(d):
         if d == 0:
-            return ('leaf', rng.choice(bools))
+            return ('leaf', rng.choice(bools), 'tk') if rng.random() < 0.3 else ('leaf', rng.choice(bools))
         r = rng.random()
         if r < 0.6:
             return ('bin', rng.choice(REL), itree(d - 1), itree(d - 1))
